@@ -499,7 +499,17 @@ qb_vsnprintf_serialize(char *serialize, size_t max_len,
 	 * argument set to QB_TRUE, so callers can honor extended setting)
 	 */
 	if ((qb_xc = strchr(serialize, QB_XC)) != NULL) {
-		*qb_xc = *(qb_xc + 1)? '|' : '\0';
+		if (*(qb_xc + 1)) {
+			*qb_xc = '|';
+		} else {
+			/* the stored format got one byte shorter: the arguments
+			 * must start right behind its new terminator (unless the
+			 * format was cut and the record is full anyway) */
+			*qb_xc = '\0';
+			if (location < max_len) {
+				location--;
+			}
+		}
 	}
 
 	format = (char *)fmt;
